@@ -41,6 +41,9 @@ cls(
 # send_headers / send_data / end_stream raises ProtocolError (which the callers swallow as "stream
 # gone").  So "a request that completes within the grace period is delivered in full" (C15) and "one
 # more on HTTP/2 [is] served" (C18) need: GOAWAY only when nothing is left to send.
+# C15 "new HTTP/2 streams are refused": a request is taken on only if shutdown has not begun at
+# that moment (a flag read before an earlier suspension does not count)
+NOT_AFTER_SHUTDOWN = {"H2Protocol._create_stream": [("C15.h2.no-new-stream-after-shutdown", "not self.context.terminated.is_set()", "C15")]}
 GOAWAY_LAST = {"H2Connection.close_connection": [("C15.h2.goaway-after-last", "forall_int('k', not in_map(self.stream_buffers, k))", "C15,C18,C09")]}
 fn(H2 + "._flush", params={}, modifies=[], effect="yields",
    ensures=[("flush.forwards", "trace_all('sent', 'x', isinstance(x, RawData))", "C02")], props=("C04",))
@@ -139,7 +142,7 @@ fn(H2 + ".stream_send", params={"event": _ev.STREAM_EVENTS}, task="app", model_o
    ],
    props=("C04", "C05"))
 
-fn(H2 + "._handle_events", params={"events": "obj pyvc:H2Events"}, task="reader", model_opts={"call_requires": GOAWAY_LAST},
+fn(H2 + "._handle_events", params={"events": "obj pyvc:H2Events"}, task="reader", model_opts={"call_requires": dict(GOAWAY_LAST, **NOT_AFTER_SHUTDOWN)},
    loops={0: {"body_ensures": [
        # C01/C09: every DATA frame is acknowledged for flow control with its flow-controlled
        # length, whether or not its stream still exists (otherwise the connection window drains)
